@@ -221,8 +221,8 @@ def run(ctx):
             what = "hang (no progress of virtual time or input)" if rc == 3 else "crash/abort"
             verdict.deviation("%s:harness-%s-%s" % (pid, "hang" if rc == 3 else "crash", tag),
                               "the client under the scripted cache ended with exit %d (%s): %s" % (rc, what, out[-1200:]), rp)
-            if not os.path.exists(trace) or rc != 3:
-                return None, out
+            if not os.path.exists(trace) or rc != 3 or os.path.getsize(trace) > 500000000:
+                return None, out          # (a trace that hit the size cap is a hang already reported; it is not validated)
         tc.validate(trace, tag, meta, [script])
         return trace, out
 
